@@ -57,6 +57,26 @@ def pwa_reference(src, tgt, trilist, x):
     return out, outside
 
 
+def pwa_safely_inside(src, trilist, x, margin=1e-9):
+    """True for points that lie inside some source triangle with barycentric margin (never decided by rounding)."""
+    src = np.asarray(src, dtype=float)
+    ok = np.zeros(len(x), dtype=bool)
+    for i, p in enumerate(np.asarray(x, dtype=float)):
+        for tri in trilist:
+            a, b, c = src[tri[0]], src[tri[1]], src[tri[2]]
+            m = np.array([b - a, c - a]).T
+            det = m[0, 0] * m[1, 1] - m[0, 1] * m[1, 0]
+            if abs(det) < 1e-14:
+                continue
+            rhs = p - a
+            al = (rhs[0] * m[1, 1] - rhs[1] * m[0, 1]) / det
+            be = (m[0, 0] * rhs[1] - m[1, 0] * rhs[0]) / det
+            if al >= margin and be >= margin and al + be <= 1 - margin:
+                ok[i] = True
+                break
+    return ok
+
+
 def _build(tc):
     if tc["kind"] == "PiecewiseAffine":
         import menpo.transform as mt
@@ -195,6 +215,11 @@ def c_history(case, ctx):
             x = pool[step[1] % len(pool)]
             r, cidx = step[2] % x.shape[0], step[3] % x.shape[1]
             x[r, cidx] += step[4]
+            if pwa and not pwa_safely_inside(tc["src"], trilist, x).all():
+                # a sliver triangle: the perturbed point would leave the domain - not this step's subject
+                x[r, cidx] -= step[4]
+                ctx.event("perturbation leaves the domain: skipped")
+                continue
             reused = True
             ctx.event("delta=%g" % abs(step[4]))
             do_apply(x, "apply_after_inplace_edit")
@@ -202,6 +227,9 @@ def c_history(case, ctx):
             x = pool[step[1] % len(pool)].copy()
             r, cidx = step[2] % x.shape[0], step[3] % x.shape[1]
             x[r, cidx] += step[4]
+            if pwa and not pwa_safely_inside(tc["src"], trilist, x).all():
+                ctx.event("perturbation leaves the domain: skipped")
+                continue
             pool.append(x)
             reused = True
             ctx.event("delta=%g" % abs(step[4]))
